@@ -15,6 +15,7 @@ _AM.token_bytes = tsh._token_bytes
 import inspect as _inspect
 _RealT = T
 _DOC_ORDER = json.load(open(os.path.join(os.path.dirname(os.path.abspath(__file__)), 'doc_signatures.json')))
+_ITER_OK = json.load(open(os.path.join(os.path.dirname(os.path.abspath(__file__)), 'iterable_params.json')))
 
 
 class _ToolsProxy:
@@ -72,6 +73,12 @@ class _ToolsProxy:
                 v = b.arguments[k]
                 if type(v) in (list, tuple) and any(w_ in str(sig.parameters[k].annotation) for w_ in ('VerifyKey', 'ScriptProtocol', 'Certificate')):
                     b.arguments[k] = type(v)(conv(k, x) for x in v)
+                    # the sequence in another shape the pinned release accepts for this parameter with the same result (frozen in
+                    # iterable_params.json: tuple / iterator / generator / map object)
+                    shp = _ITER_OK.get('%s.%s' % (name, k), [])
+                    if shp and type(v) is list and rng.random() < 0.4:
+                        w_ = list(b.arguments[k])
+                        b.arguments[k] = {'tuple': tuple, 'iter': iter, 'gen': (lambda l_: (x_ for x_ in l_)), 'map': (lambda l_: map(lambda x_: x_, l_))}[rng.choice(shp)](w_)
                 else:
                     b.arguments[k] = conv(k, v)
             # positionally in the DOCUMENTED parameter order (docs.md of the pinned release, frozen in doc_signatures.json), or every
@@ -618,6 +625,11 @@ LEAF_BODIES = ['true', 'false', 'true verify true', 'push d1 push d1 equal', 'tr
 REC = b'c3'      # recording contract (kind 'none'): INVOKE logs its argument
 
 
+class LabelledLeaf(_RealT.ScriptLeaf):
+    """what an application does with the tree classes: a leaf class of its own"""
+    label = 'application data'
+
+
 def leaf_src(i, body):
     # first instruction(s): invoke the recording contract with the leaf's marker
     return 'push x%02x push d1 push x%s invoke %s' % (i, REC.hex(), body)
@@ -709,8 +721,12 @@ def c04(rng):
     else:
         if n == 1:
             srcs.append(leaf_src(1, 'false')); bodies.append('false'); own.append(False); n = 2
-        lv = [T.ScriptLeaf.from_src(s) for s in srcs]
-        tree = rand_tree(rng, lv, history=(kind == 'grown'))
+        # applications derive their own leaf / script classes (a label, an owner): some or all leaves are instances of a subclass
+        sub_ = rng.random() < 0.35
+        lv = [(LabelledLeaf if sub_ and rng.random() < 0.7 else T.ScriptLeaf).from_src(s) for s in srcs]
+        if sub_:
+            kind += '+subclass-leaves'
+        tree = rand_tree(rng, lv, history=(kind.startswith('grown')))
         lock = tree.locking_script()
         unlocks = [l.unlocking_script() for l in lv]
     # malformed proofs first (they are refused), then the honest ones: a refused proof must not spoil later runs.
@@ -844,6 +860,17 @@ def c05(rng):
         out.append((nm + ':scriptspend of a script summed from used Script objects', [bs(T.make_taproot_witness_scriptspend(P, v2_)), bs(lk2_)], sf, cfg, True, None, ''))
         out.append((nm + ':scriptspend with only the first summand of the committed script', [bs(T.make_taproot_witness_scriptspend(P, Script.from_src('true'))), bs(lk2_)], sf, cfg, False, None, ''))
         out.append((nm + ':scriptspend with the (used) first summand object', [bs(T.make_taproot_witness_scriptspend(P, v1_)), bs(lk2_)], sf, cfg, False, None, ''))
+        # the optional commitment argument in every shape callers pass for "not given" (None, missing, b'') and given alone or together
+        # with the script: one lock, one key-spend witness
+        cm_ = hashlib.sha256(S.bytes).digest()
+        for what_, lkw_, wkw_ in (('commitment=b\'\' beside the script', dict(script=S, script_commitment=b''), dict(committed_script=S, script_commitment=b'')),
+                                  ('commitment=None beside the script', dict(script=S, script_commitment=None), dict(committed_script=S, script_commitment=None)),
+                                  ('commitment alone', dict(script_commitment=cm_), dict(script_commitment=cm_)),
+                                  ('commitment and script', dict(script=S, script_commitment=cm_), dict(committed_script=S, script_commitment=cm_)),
+                                  ('commitment as bytearray beside the script', dict(script=S, script_commitment=cm_), dict(committed_script=S, script_commitment=bytearray(cm_)))):
+            lk_ = lock_f(P, sigflags=flh, **lkw_)
+            out.append((nm + ': lock built with %s is the lock built from the script' % what_, None, None, None, bs(lk_) == bs(lock)))
+            out.append((nm + ':keyspend, witness built with %s' % what_, [bs(T.make_taproot_witness_keyspend(SEEDS[a], sf, sigflags=flh, **wkw_)), bs(lock)], sf, cfg, True, None, ''))
         wk = T.make_taproot_witness_keyspend(SEEDS[a], sf, S, sigflags=flh)
         out.append((nm + ':keyspend', [bs(wk), bs(lock)], sf, cfg, True, None, ''))
         out.append((nm + ':keyspend-other-key', [bs(T.make_taproot_witness_keyspend(SEEDS[b], sf, S, sigflags=flh)), bs(lock)], sf, cfg, False, None, ''))
